@@ -1,7 +1,7 @@
 (* C05 — property theorems only.  Bodies live in PassProofs.v / Proofs.v. *)
 From Coq Require Import PrimFloat Sorting.Permutation Sorting.Sorted.
 From EsVerif.Common Require Import Base.
-From EsVerif.C05 Require Import Model Spec PassProofs Proofs FloatFacts SortFacts FloatProofs.
+From EsVerif.C05 Require Import Model Spec PassProofs Proofs PassExt FloatFacts SortFacts FloatProofs.
 
 (* The compiled and the pure-python engine (two transcriptions) return identical arrays. *)
 Theorem C05_engines_equal : forall x lo hi m, histogram EngC x lo hi m = histogram EngPy x lo hi m.
@@ -186,3 +186,96 @@ Example C05_zero_binsize_nonvacuous :
             /\ params_ok (o_params o) = false /\ spec_ok (o_params o) = true
             /\ o_hist o = [0; 0] /\ o_rev o = [3; 3; 3; 0; 1; 2].
 Proof. eexists. split; [vm_compute; reflexivity|]. vm_compute. repeat split; reflexivity. Qed.
+
+(* ================================================================================================
+   Proof-deepening round *)
+
+(* The pass only looks at valid bin numbers: the partition theorem holds as soon as the bin numbers are
+   non-decreasing after ANY re-labelling of the invalid ones (bn' agrees with bn on validity and on the
+   valid values).  Strictly more general than C05_partition (take bn' = bn). *)
+Theorem C05_partition_relabel : forall eng bn bn' nbin s, 0 <= nbin ->
+  agree_valid nbin bn bn' s -> Sorted Z.le (map bn' s) ->
+  let '(hist, rev) := match eng with EngC => chist bn nbin s | EngPy => pyhist bn nbin s end in
+  pass_partition bn nbin s hist rev.
+Proof. exact pass_partition_relabel. Qed.
+
+(* C05_model_meets_spec with the weaker, still decidable contracts (bin numbers non-decreasing once
+   invalid ones count as "beyond the last bin"), and soundness of their boolean checker *)
+Theorem C05_model_meets_spec_w : forall eng x lo hi m o,
+  histogram eng x lo hi m = Ok o ->
+  contracts_w x lo hi o ->
+  hist_ok x lo hi (p_dmin (o_params o)) (p_bsize (o_params o)) (p_nbin (o_params o)) (o_hist o) (o_rev o).
+Proof. exact model_meets_spec_w. Qed.
+
+Theorem C05_contracts_w_sound : forall x lo hi o, contracts_w_b x lo hi o = true -> contracts_w x lo hi o.
+Proof. exact contracts_w_b_sound. Qed.
+
+(* numpy's argsort is not part of esutil; whatever it returns, if it is a stable sorting permutation
+   (a permutation of 0..n-1, ordered by value, ties in index order) it IS the list the model computes:
+   the theorems do not depend on the sorting algorithm. *)
+Theorem C05_stable_argsort_unique : forall x s, forallb finite_f x = true ->
+  Permutation s (zseq 0 (length x)) -> ordered x s -> s = argsort x.
+Proof. intros x s H. exact (stable_argsort_unique x H s). Qed.
+
+(* History independence.  The Binner object is modelled with its state (float64 copy of the data, cached
+   sort index); one dohist call maps a well-formed object to a well-formed object with the same data,
+   and its result is histogram_api of the object's data and THIS call's arguments only; a sequence of
+   calls on one object (any engines, any limits / binsize / nbin) returns what the calls return alone;
+   histogram() builds a fresh object per call. *)
+Theorem C05_history_independent :
+  (forall eng a b lo hi k nb, binner_wf b ->
+     let '(b', r) := dohist eng a b lo hi k nb in
+     binner_wf b' /\ b_x b' = b_x b /\ b_sort b' = Some (argsort (b_x b))
+     /\ r = histogram_api eng a (b_x b) lo hi k nb)
+  /\ (forall cs b, binner_wf b ->
+        run_binner b cs
+        = map (fun c => histogram_api (c_eng c) ApiBinner (b_x b) (c_lo c) (c_hi c) (c_kw c) (c_nbin c)) cs)
+  /\ (forall x c, histogram_call x c
+                  = histogram_api (c_eng c) ApiHistogram x (c_lo c) (c_hi c) (c_kw c) (c_nbin c))
+  /\ (forall x, binner_wf (binner_new x)).
+Proof.
+  split; [exact dohist_spec|]. split; [exact run_binner_spec|]. split; [exact histogram_call_spec|].
+  intro x. left. reflexivity.
+Qed.
+
+(* The property on the data for every finite input whose bin specification is sane, zero or +infinite
+   (spec_ok2): the infinite bin size arises from binsize=inf and, in nbin mode, when max - min
+   overflows; then data with a finite difference to min fall into bin 0 and the others are not counted. *)
+Theorem C05_holds_finite_total : forall eng a x lo hi k nb o,
+  forallb finite_f x = true -> finite_opt lo = true -> finite_opt hi = true ->
+  histogram_api eng a x lo hi k nb = Ok o -> spec_ok2 (o_params o) = true ->
+  hist_ok x lo hi (p_dmin (o_params o)) (p_bsize (o_params o)) (p_nbin (o_params o)) (o_hist o) (o_rev o).
+Proof. exact api_holds_finite_total. Qed.
+
+(* Bin-size mode needs no side condition: finite data and limits, any bin size > 0 (finite or infinite);
+   whenever the model returns arrays they satisfy the property (an overflow of max - min or a bin count
+   beyond int64 makes the model, like the code, reject the input). *)
+Theorem C05_holds_binsize_mode : forall eng x lo hi b o,
+  forallb finite_f x = true -> finite_opt lo = true -> finite_opt hi = true ->
+  PrimFloat.ltb 0 b = true ->
+  histogram eng x lo hi (ByBinsize b) = Ok o ->
+  hist_ok x lo hi (p_dmin (o_params o)) (p_bsize (o_params o)) (p_nbin (o_params o)) (o_hist o) (o_rev o).
+Proof. exact holds_binsize_mode. Qed.
+
+(* Non-vacuity: (1) max - min overflows in nbin mode: binsize = +inf, bin numbers [0; 0; INT64_MIN], not
+   non-decreasing, outside spec_ok, inside spec_ok2, the weak contracts hold, the strong ones do not;
+   (2) an infinite bin size given by the caller; (3) three calls on one Binner object. *)
+Example C05_deepening_nonvacuous :
+  (exists o, histogram_api EngC ApiBinner [-0x1.ep1023; 0; 0x1.ep1023]%float None None KwOmit (Some 2) = Ok o
+             /\ spec_ok (o_params o) = false /\ spec_ok2 (o_params o) = true
+             /\ o_hist o = [2; 0] /\ o_rev o = [3; 5; 5; 0; 1; 2]
+             /\ contracts_w_b [-0x1.ep1023; 0; 0x1.ep1023]%float None None o = true
+             /\ contracts_b [-0x1.ep1023; 0; 0x1.ep1023]%float None None o = false)
+  /\ (exists o, histogram EngPy [1; 5; 2]%float (Some 0%float) None (ByBinsize infinity) = Ok o
+             /\ o_hist o = [3] /\ PrimFloat.ltb 0 infinity = true)
+  /\ run_binner (binner_new [3; 1; 2]%float)
+        [mkCall EngC None None KwOmit (Some 2); mkCall EngPy (Some 2%float) None (KwVal 1%float) None;
+         mkCall EngC None None KwOmit (Some 2)]
+     = [histogram_api EngC ApiBinner [3; 1; 2]%float None None KwOmit (Some 2);
+        histogram_api EngPy ApiBinner [3; 1; 2]%float (Some 2%float) None (KwVal 1%float) None;
+        histogram_api EngC ApiBinner [3; 1; 2]%float None None KwOmit (Some 2)].
+Proof.
+  split; [eexists; split; [vm_compute; reflexivity|vm_compute; repeat split; reflexivity]|].
+  split; [eexists; split; [vm_compute; reflexivity|vm_compute; repeat split; reflexivity]|].
+  vm_compute. reflexivity.
+Qed.
